@@ -20,6 +20,15 @@ text, default msg_gen with a custom logger_fn); for the default text only the nu
 line (the epoch) are looked at.  Every metric session also carries a LambdaCallback() with no hooks and one with only some
 hooks.  Session kinds are interleaved and at least MIN_PER_KIND sessions of every kind run before the time budget may skip
 anything; skipped counts go to the evidence (histogram + assumptions).
+
+Same-object HISTORIES (seed round 3): a session's op list may also hold, between two runs, every legal change the library
+offers or tolerates — `clear_history()`, in-place edits of the arrays / lists the accessors RETURNED earlier ("scribble"),
+`reinitialize_parameters()`, rebinding a parameter, `load_state_dict`, `copy_` under no_grad, replacing a network through
+its setter, training a different state object with the same callbacks — and every op carries a READ MODE saying which
+accessors are looked at after it (all / arrays first / only the arrays / everything but the arrays / nothing), so that a lazily
+built cache, memo or stored handle inside a callback is left alone while the records change under it and is then read at
+the same length / same epochs / a longer / a shorter history.  The oracle after every op is the same probe record as for a
+fresh evaluator.  A set of fixed histories runs first (never cut by the time budget), a random stream of histories follows.
 """
 import os, csv, json, math, itertools, time
 import numpy as np
@@ -30,6 +39,10 @@ RULE = ("sessions = (state kind in positive/complex/density-matrix, tiny sizes; 
         "metric kwargs, CSV log), ObservableEvaluator (SigmaZ + scripted stub observable, CSV log), several evaluators "
         "with different periods in one list, ModelSaver (callable/dict/None metadata, metadata_only, save_initial), "
         "Logger; quick: covering subset, thorough: all periods x all (start, end) ranges x stop variants; "
+        "histories on the same callbacks: runs separated by clear_history / in-place edits of the arrays returned earlier / "
+        "reinitialize_parameters, parameter rebinding, load_state_dict, copy_, network replacement, another state object, with the "
+        "accessors read only at some steps (all / arrays first / arrays only / all but arrays / none) and the next run reaching the "
+        "same, a larger or a smaller number of evaluations (fixed histories first, then a random stream); "
         "a session is non-trivial when at least one epoch fires and (period > 1 => at least one epoch does not)")
 ASSUMPTIONS = ["torch.save/torch.load round-trip tensors and plain Python metadata exactly (C11 covers save/load itself)",
                "System.statistics is deterministic given the torch RNG state (used to learn the values an observable evaluates to)"]
@@ -70,6 +83,59 @@ def subdict(a, b):
 
 
 LAST_OUT = [""]
+
+# which accessors are read after an op of a session (the probe record is the oracle in every mode)
+READ_MODES = ("all", "arrays-first", "arrays", "scalars", "none")
+STATE_OPS = ("reinit", "rebind", "reload", "copy_", "swapnet", "swap")
+
+
+def scribble(ctx, held):
+    """in-place edit of everything the accessors returned earlier (arrays of recorded values / epochs, name lists);
+    read-only arrays are left alone (returning one is legitimate)"""
+    k = 0
+    for a in held:
+        try:
+            if isinstance(a, np.ndarray):
+                if a.size and a.flags.writeable:
+                    a[...] = -777
+                    k += 1
+            elif isinstance(a, list):
+                a.append("scribbled")
+                k += 1
+        except Exception:
+            pass
+    del held[:]
+    ctx.count("history:arrays scribbled", k)
+
+
+def mutate_state(s, spec, op, k):
+    """a legal change of the state being trained between two runs; returns the state to train from now on"""
+    import copy
+    import torch
+    torch.manual_seed(spec["tseed"] + 101 + k)
+    if op == "reinit":
+        s.reinitialize_parameters()
+    elif op == "swap":                       # the same callbacks go on with a different state object
+        s, _ = make_state(dict(spec, tseed=spec["tseed"] + 1 + k))
+    elif op == "swapnet":                    # a whole network replaced through the setter
+        new = copy.deepcopy(s.rbm_am)
+        with torch.no_grad():
+            for par in new.parameters():
+                par.add_(0.3 * torch.randn_like(par))
+        s.rbm_am = new
+    else:
+        for netname in s.networks:
+            net = getattr(s, netname)
+            if op == "rebind":
+                for name, par in list(net.named_parameters()):
+                    setattr(net, name, torch.nn.Parameter(par.detach().clone() * 0.5 + 0.25, requires_grad=par.requires_grad))
+            elif op == "reload":
+                net.load_state_dict({key: v.detach().clone() * 0.5 - 0.1 for key, v in net.state_dict().items()})
+            elif op == "copy_":
+                with torch.no_grad():
+                    for par in net.parameters():
+                        par.copy_(par * 0.7 + 0.05)
+    return s
 
 
 def canon(x):
@@ -311,11 +377,20 @@ def metric_session(ctx, spec):
     ctx.count("lambda_callback_variant:%d" % variant)
     exp_past, exp_log, mops = [], [], []
     fired_any = skipped_any = False
-    for op in spec["ops"]:
+    reads = spec.get("reads") or ["all"] * len(spec["ops"])
+    held = []                   # arrays / lists the accessors returned so far (edited in place by a "scribble" op)
+    for k, (op, mode) in enumerate(zip(spec["ops"], reads)):
+        ctx.count("history:op=%s,read=%s" % (op[0], mode))
         if op[0] == "clear":
             me.clear_history()
             exp_past = []
             mops.append([0])
+        elif op[0] == "scribble":
+            scribble(ctx, held)
+        elif op[0] in STATE_OPS:
+            ok, s = ctx.call("legal change of the trained state between runs (%s)" % op[0], case, mutate_state, s, spec, op[0], k)
+            if not ok:
+                return
         else:
             _, start, end, stop = op
             n0 = len(probe.events)
@@ -334,44 +409,64 @@ def metric_session(ctx, spec):
                     skipped_any = True
             mops.append([1, [[ev["epoch"], [ev["values"][n] for n in names]] for ev in evs]])
             ctx.traces += 1
-        check_metric_state(ctx, case, me, names, p, exp_past, exp_log, mops, logf)
+        check_metric_state(ctx, case, me, names, p, exp_past, exp_log, mops, logf, mode, held)
+    if reads[-1] != "all":      # whatever was left unread is read at the end
+        check_metric_state(ctx, case, me, names, p, exp_past, exp_log, mops, logf, "all", held)
     ctx.require("metric kwargs are passed to every metric call", all(k == ["space"] for k in seen_kwargs), case, seen_kwargs[:3])
-    ctx.case({"session": "metric", "state": spec["state"], "p": p, "ops": spec["ops"], "tseed": spec["tseed"]},
+    ctx.case({"session": "metric", "state": spec["state"], "p": p, "ops": spec["ops"], "reads": spec.get("reads"), "tseed": spec["tseed"]},
              nontrivial=fired_any and (p == 1 or skipped_any))
     ctx.count("metric:period=%d" % p); ctx.count("state:" + spec["state"])
 
 
-def check_metric_state(ctx, case, me, names, p, exp_past, exp_log, mops, logf):
+def check_metric_state(ctx, case, me, names, p, exp_past, exp_log, mops, logf, mode="all", held=None):
+    """mode: which accessors are read now (READ_MODES); held collects the returned arrays / lists"""
     n = len(exp_past)
+    held = held if held is not None else []
+    if mode == "none":
+        return
+
     # ---- oracle against the probe's record
-    ctx.require("len(evaluator) == number of multiples of the period among the run's epochs", len(me) == n, case,
-                {"len": len(me), "expected": n})
-    ctx.require("evaluator.epochs == the multiples of the period among the run's epochs, in order",
-                [int(e) for e in me.epochs] == [e for e, _ in exp_past], case,
-                {"epochs": [int(e) for e in me.epochs], "expected": [e for e, _ in exp_past]})
-    for nm in names:
-        want = [v[nm] for _, v in exp_past]
-        for form, get in (("getitem", lambda: me[nm]), ("getattr", lambda: getattr(me, nm))):
-            ok, arr = ctx.call("evaluator[%s]" % form, case, get)
-            if ok:
-                ctx.require("per-name array == values computed at the recorded epochs", same_vals(arr, want), case,
-                            {"name": nm, "got": canon(arr), "want": canon(want)})
-        for i in list(range(-n - 2, n + 2)) + [None]:
-            valid = (i is None and n > 0) or (i is not None and -n <= i < n)
-            r = res(lambda: me.get_value(nm, i) if i is not None else me.get_value(nm))
-            if valid:
-                want_i = exp_past[-1 if i is None else i][1][nm]
-                ctx.require("get_value(name, index) == value computed at that evaluation", r[0] == 0 and same_vals(r[1], want_i),
-                            case, {"name": nm, "index": i, "got": canon(r), "want": canon(want_i)})
-            else:
-                info(ctx, "get_value out-of-range index -> IndexError", r == [1, 0])
-    want_last = exp_past[-1][1] if n else {}
-    ctx.require("evaluator.last == values of the most recent evaluation",
-                list(me.last) == list(want_last) and same_vals(list(me.last.values()), list(want_last.values())), case,
-                {"last": {k: float(v) for k, v in me.last.items()}, "want": {k: float(v) for k, v in want_last.items()}})
-    ctx.require("evaluator.names == metric names", list(me.names) == names, case)
-    body = None
-    if logf is not None:
+    def chk_len_epochs():
+        ctx.require("len(evaluator) == number of multiples of the period among the run's epochs", len(me) == n, case,
+                    {"len": len(me), "expected": n})
+        eps = me.epochs
+        ctx.require("evaluator.epochs == the multiples of the period among the run's epochs, in order",
+                    [int(e) for e in eps] == [e for e, _ in exp_past], case,
+                    {"epochs": [int(e) for e in eps], "expected": [e for e, _ in exp_past]})
+        held.append(eps)
+
+    def chk_arrays():
+        for nm in names:
+            want = [v[nm] for _, v in exp_past]
+            for form, get in (("getitem", lambda: me[nm]), ("getattr", lambda: getattr(me, nm))):
+                ok, arr = ctx.call("evaluator[%s]" % form, case, get)
+                if ok:
+                    ctx.require("per-name array == values computed at the recorded epochs", same_vals(arr, want), case,
+                                {"name": nm, "got": canon(arr), "want": canon(want), "read": mode})
+                    held.append(arr)
+
+    def chk_get_value():
+        for nm in names:
+            for i in list(range(-n - 2, n + 2)) + [None]:
+                valid = (i is None and n > 0) or (i is not None and -n <= i < n)
+                r = res(lambda: me.get_value(nm, i) if i is not None else me.get_value(nm))
+                if valid:
+                    want_i = exp_past[-1 if i is None else i][1][nm]
+                    ctx.require("get_value(name, index) == value computed at that evaluation", r[0] == 0 and same_vals(r[1], want_i),
+                                case, {"name": nm, "index": i, "got": canon(r), "want": canon(want_i)})
+                else:
+                    info(ctx, "get_value out-of-range index -> IndexError", r == [1, 0])
+
+    def chk_last_names_csv():
+        want_last = exp_past[-1][1] if n else {}
+        ctx.require("evaluator.last == values of the most recent evaluation",
+                    list(me.last) == list(want_last) and same_vals(list(me.last.values()), list(want_last.values())), case,
+                    {"last": {k: float(v) for k, v in me.last.items()}, "want": {k: float(v) for k, v in want_last.items()}})
+        nms = me.names
+        ctx.require("evaluator.names == metric names", list(nms) == names, case)
+        held.append(nms)
+        if logf is None:
+            return None
         with open(logf) as f:
             rows = list(csv.reader(f))
         ctx.require("CSV header == epoch + metric names", rows[:1] == [["epoch"] + names], case, rows[:1])
@@ -379,6 +474,19 @@ def check_metric_state(ctx, case, me, names, p, exp_past, exp_log, mops, logf):
         want_body = [[e] + [float(v[nm]) for nm in names] for e, v in exp_log]
         ctx.require("CSV body == one row (epoch, values in field order) per evaluation", canon(body) == canon(want_body), case,
                     {"body": body, "want": want_body})
+        return body
+
+    if mode == "arrays":
+        return chk_arrays()
+    if mode == "scalars":
+        chk_len_epochs(); chk_get_value(); chk_last_names_csv()
+        return
+    if mode == "arrays-first":
+        chk_arrays(); chk_len_epochs()
+    else:
+        chk_len_epochs(); chk_arrays()
+    chk_get_value()
+    body = chk_last_names_csv()
     # ---- correspondence with the model
     allq = [(nm, i) for nm in names + ["zz"] for i in list(range(-n - 2, n + 2)) + [None]]
     vmask = [nm != "zz" and ((i is None and n > 0) or (i is not None and -n <= i < n)) for nm, i in allq]
@@ -435,11 +543,20 @@ def obs_session(ctx, spec):
     cbs = [clock, probe, oe]        # the probe must sit right before the evaluator (same RNG state)
     exp_past, exp_log, mops = [], [], []
     fired_any = skipped_any = False
-    for op in spec["ops"]:
+    reads = spec.get("reads") or ["all"] * len(spec["ops"])
+    held = []
+    for k, (op, mode) in enumerate(zip(spec["ops"], reads)):
+        ctx.count("history:op=%s,read=%s" % (op[0], mode))
         if op[0] == "clear":
             oe.clear_history()
             exp_past = []
             mops.append([0])
+        elif op[0] == "scribble":
+            scribble(ctx, held)
+        elif op[0] in STATE_OPS:
+            ok, s = ctx.call("legal change of the trained state between runs (%s)" % op[0], case, mutate_state, s, spec, op[0], k)
+            if not ok:
+                return
         else:
             _, start, end, stop = op
             n0 = len(probe.events)
@@ -455,8 +572,10 @@ def obs_session(ctx, spec):
             mops.append([1, [[ev["epoch"], [[ev["values"][nm][k] for k in ("mean", "variance", "std_error", "num_samples")]
                                             for nm in names]] for ev in evs]])
             ctx.traces += 1
-        check_obs_state(ctx, case, oe, names, p, exp_past, exp_log, mops, logf)
-    ctx.case({"session": "observable", "state": spec["state"], "p": p, "ops": spec["ops"], "tseed": spec["tseed"]},
+        check_obs_state(ctx, case, oe, names, p, exp_past, exp_log, mops, logf, mode, held)
+    if reads[-1] != "all":
+        check_obs_state(ctx, case, oe, names, p, exp_past, exp_log, mops, logf, "all", held)
+    ctx.case({"session": "observable", "state": spec["state"], "p": p, "ops": spec["ops"], "reads": spec.get("reads"), "tseed": spec["tseed"]},
              nontrivial=fired_any and (p == 1 or skipped_any))
     ctx.count("observable:period=%d" % p); ctx.count("state:" + spec["state"])
 
@@ -465,38 +584,55 @@ def stats_list(d):
     return [float(d[k]) for k in ("mean", "variance", "std_error", "num_samples")]
 
 
-def check_obs_state(ctx, case, oe, names, p, exp_past, exp_log, mops, logf):
+def check_obs_state(ctx, case, oe, names, p, exp_past, exp_log, mops, logf, mode="all", held=None):
     n = len(exp_past)
-    ctx.require("len(evaluator) == number of multiples of the period among the run's epochs", len(oe) == n, case, {"len": len(oe), "expected": n})
-    ctx.require("evaluator.epochs == the multiples of the period among the run's epochs, in order",
-                [int(e) for e in oe.epochs] == [e for e, _ in exp_past], case,
-                {"epochs": [int(e) for e in oe.epochs], "expected": [e for e, _ in exp_past]})
-    for nm in names:
-        for stat, plural in (("mean", "means"), ("variance", "variances"), ("std_error", "std_errors")):
-            want = [v[nm][stat] for _, v in exp_past]
-            for form, get in ((stat, lambda: getattr(getattr(oe, nm), stat)), (plural, lambda: getattr(oe[nm], plural)),
-                              ("[%s]" % plural, lambda: oe[nm][plural])):
-                ok, arr = ctx.call("ObservableStatistics.%s" % form, case, get)
-                if ok:
-                    ctx.require("ObservableStatistics array (singular and plural name) == statistics computed at the recorded epochs",
-                                same_vals(arr, want), case, {"obs": nm, "stat": form, "got": canon(arr), "want": canon(want)})
-        for i in list(range(-n - 2, n + 2)) + [None]:
-            valid = (i is None and n > 0) or (i is not None and -n <= i < n)
-            r = res(lambda: oe.get_value(nm, i) if i is not None else oe.get_value(nm), stats_list)
-            if valid:
-                want_i = stats_list(exp_past[-1 if i is None else i][1][nm])
-                ctx.require("get_value(name, index) == value computed at that evaluation", r[0] == 0 and same_vals(r[1], want_i),
-                            case, {"name": nm, "index": i, "got": canon(r), "want": canon(want_i)})
-            else:
-                info(ctx, "get_value out-of-range index -> IndexError", r == [1, 0])
-    want_last = exp_past[-1][1] if n else {}
-    ctx.require("evaluator.last == values of the most recent evaluation",
-                list(oe.last) == list(want_last) and all(same_vals(stats_list(oe.last[k]), stats_list(want_last[k])) for k in want_last),
-                case, {"last_keys": list(oe.last)})
-    ctx.require("evaluator.names == observable names", list(oe.names) == names, case)
+    held = held if held is not None else []
+    if mode == "none":
+        return
     fields = ["epoch"] + [nm + "_" + st for nm in names for st in ("mean", "variance", "std_error")]
-    body = None
-    if logf is not None:
+
+    def chk_len_epochs():
+        ctx.require("len(evaluator) == number of multiples of the period among the run's epochs", len(oe) == n, case, {"len": len(oe), "expected": n})
+        eps = oe.epochs
+        ctx.require("evaluator.epochs == the multiples of the period among the run's epochs, in order",
+                    [int(e) for e in eps] == [e for e, _ in exp_past], case,
+                    {"epochs": [int(e) for e in eps], "expected": [e for e, _ in exp_past]})
+        held.append(eps)
+
+    def chk_arrays():
+        for nm in names:
+            for stat, plural in (("mean", "means"), ("variance", "variances"), ("std_error", "std_errors")):
+                want = [v[nm][stat] for _, v in exp_past]
+                for form, get in ((stat, lambda: getattr(getattr(oe, nm), stat)), (plural, lambda: getattr(oe[nm], plural)),
+                                  ("[%s]" % plural, lambda: oe[nm][plural])):
+                    ok, arr = ctx.call("ObservableStatistics.%s" % form, case, get)
+                    if ok:
+                        ctx.require("ObservableStatistics array (singular and plural name) == statistics computed at the recorded epochs",
+                                    same_vals(arr, want), case, {"obs": nm, "stat": form, "got": canon(arr), "want": canon(want), "read": mode})
+                        held.append(arr)
+
+    def chk_get_value():
+        for nm in names:
+            for i in list(range(-n - 2, n + 2)) + [None]:
+                valid = (i is None and n > 0) or (i is not None and -n <= i < n)
+                r = res(lambda: oe.get_value(nm, i) if i is not None else oe.get_value(nm), stats_list)
+                if valid:
+                    want_i = stats_list(exp_past[-1 if i is None else i][1][nm])
+                    ctx.require("get_value(name, index) == value computed at that evaluation", r[0] == 0 and same_vals(r[1], want_i),
+                                case, {"name": nm, "index": i, "got": canon(r), "want": canon(want_i)})
+                else:
+                    info(ctx, "get_value out-of-range index -> IndexError", r == [1, 0])
+
+    def chk_last_names_csv():
+        want_last = exp_past[-1][1] if n else {}
+        ctx.require("evaluator.last == values of the most recent evaluation",
+                    list(oe.last) == list(want_last) and all(same_vals(stats_list(oe.last[k]), stats_list(want_last[k])) for k in want_last),
+                    case, {"last_keys": list(oe.last)})
+        nms = oe.names
+        ctx.require("evaluator.names == observable names", list(nms) == names, case)
+        held.append(nms)
+        if logf is None:
+            return None
         with open(logf) as f:
             rows = list(csv.reader(f))
         ctx.require("CSV header == epoch + <obs>_mean/_variance/_std_error", rows[:1] == [fields], case, rows[:1])
@@ -504,6 +640,19 @@ def check_obs_state(ctx, case, oe, names, p, exp_past, exp_log, mops, logf):
         want_body = [[e] + [float(v[nm][st]) for nm in names for st in ("mean", "variance", "std_error")] for e, v in exp_log]
         ctx.require("CSV body == one row (epoch, statistics in field order) per evaluation", canon(body) == canon(want_body), case,
                     {"body": body, "want": want_body})
+        return body
+
+    if mode == "arrays":
+        return chk_arrays()
+    if mode == "scalars":
+        chk_len_epochs(); chk_get_value(); chk_last_names_csv()
+        return
+    if mode == "arrays-first":
+        chk_arrays(); chk_len_epochs()
+    else:
+        chk_len_epochs(); chk_arrays()
+    chk_get_value()
+    body = chk_last_names_csv()
     # ---- correspondence with the model
     idxs = list(range(-n - 2, n + 2)) + [None]
     allq = [(nm, i) for nm in names + ["zz"] for i in idxs]
@@ -614,7 +763,7 @@ def saver_session(ctx, spec):
     fgiven = {"str": folder, "slash": folder + os.sep, "path": pathlib.Path(folder)}[spec.get("folder_arg", "str")]
     ctx.count("saver_folder:%s/%s" % (fcfg, spec.get("folder_arg", "str"))); ctx.count("saver_file_name:" + tmpl)
     probe = C["Probe"]()
-    the_dict = {"tag": 7, "lst": [1, 2]}
+    the_dict = {"tag": 7, "lst": [1, 2], "nested": {"a": [1, {"b": 2.5}], "c": "x"}}
     the_dict_copy = json.loads(json.dumps(the_dict))
     md_calls = []
 
@@ -667,7 +816,14 @@ def saver_session(ctx, spec):
     want_writes = []        # (file name, sid, epoch argument) in order
     mfits = []
     fired_any = skipped_any = False
-    for (_, start, end, stop) in spec["fits"]:
+    for k, fop in enumerate(spec["fits"]):
+        if fop[0] in STATE_OPS:     # a legal change of the trained state between two runs with the same saver / loggers
+            ctx.count("history:op=%s,saver" % fop[0])
+            ok, s = ctx.call("legal change of the trained state between runs (%s)" % fop[0], case, mutate_state, s, spec, fop[0], k)
+            if not ok:
+                return
+            continue
+        _, start, end, stop = fop
         n0, s0 = len(probe.events), len(probe.starts)
         torch.save = rec_save
         try:
@@ -818,8 +974,11 @@ def stop_variants(rng, start, end, full):
     return out
 
 
-def script_for(rng):
-    return [float(x) for x in np.round(rng.normal(size=int(rng.integers(3, 9))), 3)]
+def script_for(rng, coprime=False):
+    """scripted metric values, cycled by the session clock; coprime: a prime cycle length, so that a re-run of the same
+    epochs does not meet the same values"""
+    n = int(pick(rng, [5, 7, 11])) if coprime else int(rng.integers(3, 9))
+    return [float(x) for x in np.round(rng.normal(size=n), 3)]
 
 
 FILE_NAMES = ["ck_{}.pt", "ck_{}.pt", "{}", "ck_{0}.pt", "ck_{:>5}.pt", "e{}.model"]
@@ -837,6 +996,121 @@ def saver_options(rng, init):
             "folder_arg": ["str", "slash", "path"][int(rng.integers(3))],
             "file_name": names[int(rng.integers(len(names)))], "form": int(rng.integers(3)),
             "ptype": "np.int64" if rng.random() < 0.25 else "int"}
+
+
+def fired_count(p, a, b):
+    return sum(1 for e in range(a, b + 1) if e % p == 0)
+
+
+HIST_RANGES = [(a, b) for a in (0, 1, 2, 3, 4, 5, 7) for b in range(a, a + 7)]
+
+
+def pick(rng, xs, w=None):
+    w = np.array(w if w is not None else [1.0] * len(xs), dtype=float)
+    return xs[int(rng.choice(len(xs), p=w / w.sum()))]
+
+
+def random_history(rng, kinds, obs=False):
+    """ops + read modes of one evaluator history: runs separated by clear_history / scribbling over returned arrays /
+    legal changes of the trained state, the next run reaching (half of the time) exactly as many evaluations as the one
+    before; accessors are read only at some of the steps"""
+    p = int(rng.integers(1, 4))
+    cand = [r for r in HIST_RANGES if fired_count(p, *r) >= 1 and (not obs or r[1] - r[0] <= 4)]
+    last = cand[int(rng.integers(len(cand)))]
+    ops, reads = [("fit", last[0], last[1], None)], [pick(rng, ["all", "arrays", "arrays-first"], [2, 1, 1])]
+    for _ in range(int(rng.integers(1, 3 if obs else 4))):
+        if rng.random() < 0.3:
+            ops.append(("scribble",)); reads.append(pick(rng, ["all", "none", "arrays"], [2, 1, 1]))
+        if rng.random() < 0.75:
+            ops.append(("clear",)); reads.append(pick(rng, ["none", "scalars", "all"], [6, 3, 1]))
+        if rng.random() < 0.35:
+            ops.append((pick(rng, list(STATE_OPS)),)); reads.append("none")
+        same = [r for r in cand if fired_count(p, *r) == fired_count(p, *last)]
+        nxt = same[int(rng.integers(len(same)))] if rng.random() < 0.55 else cand[int(rng.integers(len(cand)))]
+        stop = None
+        if nxt[1] > nxt[0] and rng.random() < 0.15:
+            stop = (int(rng.integers(nxt[0], nxt[1])), "epoch" if rng.random() < 0.5 else "batch")
+        ops.append(("fit", nxt[0], nxt[1], stop)); reads.append(pick(rng, ["all", "arrays", "arrays-first", "scalars", "none"], [4, 2, 2, 1, 1]))
+        last = nxt
+    return {"state": pick(rng, kinds), "period": p, "ops": ops, "reads": reads, "tseed": int(rng.integers(1 << 30))}
+
+
+def history_specs(rng, full):
+    kinds = ["positive", "complex", "dm"]
+    out = []
+    for i in range(80 if full else 14):
+        out.append(("metric", dict(random_history(rng, kinds), script=script_for(rng, coprime=True), probe_before=bool(rng.random() < 0.5),
+                                   **ev_options(rng))))
+    for i in range(25 if full else 5):
+        out.append(("obs", dict(random_history(rng, kinds, obs=True),
+                                script=[[float(np.round(rng.normal(), 3)), float(np.round(rng.uniform(0.1, 2), 3))] for _ in range(7)],
+                                **ev_options(rng))))
+    for i in range(20 if full else 4):      # the same saver / loggers over several runs with the state changed in between
+        p = int(rng.integers(1, 4))
+        fits = []
+        for j in range(int(rng.integers(2, 4))):
+            if j:
+                fits.append((pick(rng, list(STATE_OPS)),))
+            a = int(rng.integers(0, 3)); b = a + int(rng.integers(1, 5))
+            fits.append(("fit", a, b, None))
+        init = bool(rng.random() < 0.6)
+        out.append(("saver", dict({"state": kinds[i % 3], "period": p, "save_initial": init, "md": ["callable", "dict", "none"][i % 3],
+                                   "md_only": bool(rng.random() < 0.3), "fits": fits, "lg_period": int(rng.integers(1, 4)),
+                                   "tseed": int(rng.integers(1 << 30))}, **saver_options(rng, init))))
+    return out
+
+
+FIT = lambda a, b, stop=None: ("fit", a, b, stop)
+# fixed histories (always run, first of their kind): a cache / memo / stored handle inside a callback that is not (completely)
+# invalidated by clear_history, by new records, by edits of returned arrays or by a change of the trained state shows here
+FIXED_HISTORIES = [
+    # read, clear_history, run again for exactly as many evaluations (other epochs), read
+    ("metric", {"state": "positive", "period": 2, "ops": [FIT(1, 6), ("clear",), FIT(7, 12)], "reads": ["all", "none", "all"],
+                "tseed": 31, "script": [0.5, -1.25, 2.0, 0.75, -0.5], "probe_before": True, "verbose": False, "log": True, "form": 0}),
+    # ... at the very same epochs (values differ), the arrays read first / only the arrays read before
+    ("metric", {"state": "complex", "period": 2, "ops": [FIT(1, 6), ("clear",), FIT(1, 6)], "reads": ["arrays", "scalars", "arrays-first"],
+                "tseed": 32, "script": [1.5, -0.25, 3.0, 0.125, -2.5], "probe_before": False, "verbose": False, "log": True, "form": 1}),
+    # ... a longer, then a shorter run after clear_history, nothing read in between
+    ("metric", {"state": "dm", "period": 1, "ops": [FIT(1, 3), ("clear",), FIT(1, 5), ("clear",), FIT(2, 3)],
+                "reads": ["all", "none", "all", "none", "arrays-first"],
+                "tseed": 33, "script": [0.5, 1.5, -2.0, 4.0, 0.25, -1.0, 2.25], "probe_before": True, "verbose": False, "log": False, "form": 2}),
+    # in-place edits of the arrays returned earlier, then the same accessors again
+    ("metric", {"state": "positive", "period": 1, "ops": [FIT(1, 4), ("scribble",), FIT(5, 6), ("scribble",), ("clear",), FIT(1, 6)],
+                "reads": ["all", "all", "arrays", "arrays-first", "none", "all"],
+                "tseed": 34, "script": [0.5, -1.25, 2.0, 0.75, -0.5, 1.0, 3.5], "probe_before": True, "verbose": True, "log": True, "form": 0}),
+    # legal changes of the trained state between runs with the same callbacks
+    ("metric", {"state": "positive", "period": 2,
+                "ops": [FIT(1, 4), ("swap",), FIT(1, 4), ("clear",), ("reinit",), FIT(1, 4), ("rebind",), FIT(5, 8), ("clear",), ("swapnet",), FIT(5, 8)],
+                "reads": ["all", "none", "all", "none", "none", "all", "none", "scalars", "none", "none", "all"],
+                "tseed": 35, "script": [0.5, -1.25, 2.0, 0.75, -0.5, 1.0, 3.5], "probe_before": False, "verbose": False, "log": True, "form": 0}),
+    # runs cut short by a stop request, then as many evaluations in a full run
+    ("metric", {"state": "complex", "period": 1,
+                "ops": [FIT(1, 8, (3, "epoch")), ("clear",), FIT(4, 6), ("clear",), ("reload",), FIT(1, 5, (3, "batch")), ("clear",), FIT(7, 8)],
+                "reads": ["all", "none", "all", "none", "none", "all", "scalars", "arrays"],
+                "tseed": 36, "script": [0.5, -1.25, 2.0, 0.75, -0.5], "probe_before": True, "verbose": False, "log": False, "form": 0}),
+    # history kept over two runs with partial reads, then cleared and refilled to an earlier length
+    ("metric", {"state": "dm", "period": 3, "ops": [FIT(1, 6), ("clear",), ("copy_",), FIT(4, 9), FIT(10, 12), ("clear",), FIT(1, 9)],
+                "reads": ["arrays", "none", "none", "arrays", "all", "none", "arrays-first"],
+                "tseed": 37, "script": [0.5, -1.25, 2.0, 0.75, -0.5, 1.0, 3.5], "probe_before": True, "verbose": False, "log": True, "form": 0,
+                "ptype": "np.int64"}),
+    ("obs", {"state": "positive", "period": 2, "ops": [FIT(1, 6), ("clear",), FIT(7, 12)], "reads": ["all", "none", "all"],
+             "tseed": 41, "script": [[0.1, 0.5], [0.3, 1.5], [-0.4, 0.7], [1.1, 0.2], [0.6, 1.9]], "verbose": False, "log": True, "form": 0}),
+    ("obs", {"state": "complex", "period": 1, "ops": [FIT(1, 3), ("clear",), FIT(1, 3), ("scribble",), ("clear",), FIT(1, 5)],
+             "reads": ["arrays", "scalars", "arrays-first", "all", "none", "all"],
+             "tseed": 42, "script": [[0.1, 0.5], [0.3, 1.5], [-0.4, 0.7], [1.1, 0.2], [0.6, 1.9]], "verbose": False, "log": False, "form": 1}),
+    ("obs", {"state": "dm", "period": 2, "ops": [FIT(1, 4), ("swap",), ("clear",), FIT(1, 4), ("clear",), ("reinit",), FIT(3, 6), FIT(7, 8)],
+             "reads": ["all", "none", "none", "all", "none", "none", "arrays", "none"],
+             "tseed": 43, "script": [[0.1, 0.5], [0.3, 1.5], [-0.4, 0.7], [1.1, 0.2], [0.6, 1.9]], "verbose": False, "log": True, "form": 0}),
+    # the same saver and loggers over several runs that reach the same epochs, the state changed in between
+    ("saver", {"state": "positive", "period": 2, "save_initial": True, "md": "callable", "md_only": False,
+               "fits": [FIT(1, 4), ("reinit",), FIT(1, 4), ("swap",), FIT(3, 6)], "lg_period": 2, "tseed": 51}),
+    ("saver", {"state": "complex", "period": 1, "save_initial": True, "md": "dict", "md_only": False,
+               "fits": [FIT(1, 3), ("swap",), FIT(2, 4), ("rebind",), FIT(2, 3)], "lg_period": 1, "tseed": 52}),
+    ("saver", {"state": "dm", "period": 2, "save_initial": None, "md": "none", "md_only": False, "folder": "populated", "form": 2,
+               "fits": [FIT(1, 4), ("swapnet",), FIT(1, 4), ("reload",), FIT(1, 2)], "lg_period": 3, "tseed": 53}),
+    ("saver", {"state": "positive", "period": 1, "save_initial": False, "md": "callable", "md_only": True,
+               "fits": [FIT(1, 2), ("copy_",), FIT(1, 2)], "lg_period": 2, "tseed": 54}),
+]
 
 
 def specs(ctx):
@@ -914,7 +1188,8 @@ def specs(ctx):
                       "verbose": True, "log": True, "form": 0}),
              ("obs", {"state": "dm", "period": 1, "ops": [("fit", 1, 3, None)], "tseed": 21, "script": [[0.1, 0.5], [0.3, 1.5]],
                       "verbose": True, "log": False, "form": 1, "ptype": "np.int64"})]
-    return fixed + out        # run() interleaves the kinds; these two are the first saver sessions
+    # histories first (fixed ones, then the random stream), then the earlier fixed cases and the grid
+    return FIXED_HISTORIES + fixed + history_specs(rng, full) + out
 
 
 RUNNERS = {"metric": metric_session, "obs": obs_session, "multi": multi_session, "saver": saver_session}
@@ -942,15 +1217,18 @@ def interleave(sp):
     return out
 
 
-MIN_PER_KIND = 6
+MIN_PER_KIND = 6         # raised per kind to the number of fixed sessions of that kind (they are never skipped)
 
 
 def run(ctx):
     t0 = time.time()
     budget = 400 if ctx.thorough else 45
     done, skipped = {}, {}
+    nfixed = {}
+    for kind, _ in FIXED_HISTORIES:
+        nfixed[kind] = nfixed.get(kind, 0) + 1
     for kind, spec in interleave(specs(ctx)):
-        if time.time() - t0 > budget and done.get(kind, 0) >= MIN_PER_KIND:
+        if time.time() - t0 > budget and done.get(kind, 0) >= max(MIN_PER_KIND, nfixed.get(kind, 0) + 5):
             skipped[kind] = skipped.get(kind, 0) + 1
             ctx.count("skipped_time_budget:" + kind)
             continue
